@@ -350,6 +350,44 @@ func genRandom(r *rand.Rand, kind string, maxLen int) []op {
 	return ops
 }
 
+// a stream of pushes with many ties and monotone runs, then a full drain
+func genPriStream(r *rand.Rand) []op {
+	n := 6 + r.Intn(15)
+	span := int64([]int{2, 3, 4, 6, 8, 11}[r.Intn(6)])
+	ops := make([]op, 0, 2*n+2)
+	id := int64(0)
+	cur := r.Int63n(span)
+	pushed := 0
+	for pushed < n {
+		runLen := 1 + r.Intn(4)
+		mode := r.Intn(4) // 0 descending run, 1 ascending run, 2 ties, 3 random
+		for k := 0; k < runLen && pushed < n; k++ {
+			switch mode {
+			case 0:
+				cur -= int64(r.Intn(2) + 1)
+			case 1:
+				cur += int64(r.Intn(2) + 1)
+			case 2:
+			default:
+				cur = r.Int63n(span)
+			}
+			if cur < 0 || cur >= span {
+				cur = r.Int63n(span)
+			}
+			id++
+			ops = append(ops, op{code: "u", x: id, pri: cur})
+			pushed++
+		}
+		if r.Intn(6) == 0 {
+			ops = append(ops, op{code: "o"})
+		}
+	}
+	for i := 0; i <= n; i++ {
+		ops = append(ops, op{code: "o"})
+	}
+	return ops
+}
+
 func pickCaps(r *rand.Rand, kind string) []int {
 	bounded := []int{1, 1, 2, 2, 3, 5, 8}
 	one := func() int {
@@ -461,7 +499,7 @@ func main() {
 		focus := ""
 		if e.Search && e.Focus != "" {
 			for _, k := range kindOrder {
-				if strings.HasPrefix(e.Focus, kindName[k]) {
+				if strings.Contains(e.Focus, kindName[k]) {
 					focus = k
 				}
 			}
@@ -541,6 +579,37 @@ func main() {
 			rnd[kindName[k]] = n
 		}
 		e.Meta["random_histories"] = rnd
+
+		// (3) PriQueue priority streams: a roomy queue, 6..20 pushes drawn from a small range with many ties and
+		// descending / ascending runs (so that the heap gets inner nodes of every shape), a few pops in between, then pop everything
+		if focus == "" || focus == "pri" {
+			ns := e.Scale(700, 8000)
+			for i := 0; i < ns; i++ {
+				runCase(e, spec{"pri", []int{[]int{24, 32, 64}[e.Rnd.Intn(3)]}}, genPriStream(e.Rnd), "priority-stream")
+			}
+			e.Meta["priority_streams"] = ns
+		}
+
+		// (4) concurrent rounds: add versus close
+		raceOnly := e.Search && strings.HasPrefix(e.Focus, "race ")
+		rs := map[string]interface{}{}
+		for _, v := range raceVariants {
+			if focus != "" && focus != v.kind {
+				continue
+			}
+			rounds, emitCap := e.Scale(30000, 200000), 600
+			if v.kind == "sync" { // cheap rounds, narrow window
+				rounds *= 3
+			}
+			if big {
+				emitCap = 6000
+			}
+			if raceOnly {
+				rounds *= 3
+			}
+			rs[kindName[v.kind]] = raceClass(e.Rnd, e, v, rounds, emitCap).String()
+		}
+		e.Meta["race_add_vs_close"] = rs
 		nh := 0
 		for _, v := range hangs {
 			nh += v
